@@ -8,9 +8,11 @@
     facts computed from the extracted guard skeletons (`Lifecycle.facts`).
   * `Lifecycle.startX / shutdownX` (Model/LifecyclePlan.lean): `Deep.start` / `Deep.shutdown` TRANSLATED statement by
     statement (`Extracted.DeepLC.startPlan / shutdownPlan`, one entry per source statement) and run by a generic
-    interpreter; `c14_start_translated` / `c14_shutdown_translated` prove them equal to the state machine above for every
-    state and fault assignment, so the history theorems hold of the translated methods (`c14_restore_translated`) and
-    a dropped / added / moved statement of either method breaks a proof obligation.  The driver runs the translated ones.
+    interpreter.  Tie lemmas: same resulting state as the machine above (`c14_start_translated`,
+    `c14_shutdown_translated_partial` — sees only statements that touch the modelled state) and same effect TRACE as the
+    specified call order (`c14_start_trace`, `c14_shutdown_trace_partial` — sees every statement and its position: a
+    dropped / added / moved statement of either method breaks this obligation).  `_partial` = plugins whose `shutdown`
+    attribute can be read (otherwise: witness + known finding).  The driver runs the translated ones.
   * `Guard.exec` on the skeletons of `Deep.start`, `Deep.shutdown`, `TaskHandler.flush`, `RepeatedTimer._target`.
   Quantifiers: every sequence of operations `ops : List Op` (start, shutdown with ANY fault assignment, config
   update, failing/non-failing poll tick), every pair of pre-existing trace functions `h1 h2` (none, a host
@@ -243,42 +245,82 @@ theorem c14_start_marks_started (env : Env) (tr tr' : Trace) (h : exec env deepS
 
   `startX` / `shutdownX` run the statement lists `Extracted.DeepLC.startPlan / shutdownPlan` — the two method bodies
   translated from the source of this run, one entry per statement.  The theorems above are stated for the
-  specification machine (`start` / `shutdown`, Model/Lifecycle.lean); the three below carry them over to the
-  translated methods, and fail when a statement of either method is dropped, added or moved. -/
+  specification machine (`start` / `shutdown`, Model/Lifecycle.lean).  Two refinements tie the translated methods to it:
+  * STATE (`c14_start_translated`, `c14_shutdown_translated_partial`): same resulting state / same "raises".  This sees
+    only statements that touch the modelled state (the flags, `trigger_handler.start()`, `poll.start()`, the steps) and
+    not their order.
+  * TRACE (`c14_start_trace`, `c14_shutdown_trace_partial`): the list of everything the method does, in order (every
+    service call incl. those outside the modelled state, every flag assignment, every step attempted) equals the
+    specified order.  Dropping, adding or moving ANY statement of either method breaks this obligation.
+  `steps += [plugin.shutdown for plugin in self.config.plugins]` is evaluated outside the per-step `try`: a loaded
+  plugin whose `shutdown` attribute cannot be read makes the real `Deep.shutdown` raise before any step.  The model has
+  this (`Faults.attrUnreadable`, `buildFails`); the shutdown refinements therefore carry the hypothesis `Readable`, and
+  `c14_unreadable_shutdown_witness` shows it is needed (known finding `C14/plugin-shutdown-attribute-unreadable`). -/
 
-/-- **the translated `Deep.start` is the specified one** — in every state (started or not, shut down before or not,
-    NO_TRACE or not, any hooks). -/
+/-- model lemma (tie): **the translated `Deep.start` ends in the specified state** — in every state (started or not,
+    shut down before or not, NO_TRACE or not, any hooks).  Both sides are hand-written machinery over the extracted
+    plan; what it buys is that the history theorems hold of the plan. -/
 theorem c14_start_translated (d : Deep) : startX d = start d := startX_eq d
 
-/-- **the translated `Deep.shutdown` is the specified one** — in every state and for every fault assignment (which
-    plugins' `shutdown()` raise, of which class, which pending sends fail): same resulting state, same "raises". -/
-theorem c14_shutdown_translated (f : Faults) (d : Deep) : shutdownX f d = shutdown f d := shutdownX_eq f d
+/-- model lemma (tie): **the translated `Deep.shutdown` ends in the specified state, with the same "raises"**
+    (`_partial`: hypothesis `Readable` — the `shutdown` attribute of every loaded plugin can be read) — in every state
+    and for every assignment of raising plugin shutdowns (either class) and failing pending sends. -/
+theorem c14_shutdown_translated_partial (f : Faults) (d : Deep) (hr : Readable f d) : shutdownX f d = shutdown f d :=
+  shutdownX_eq f d hr
 
-/-- **restore exact, hooks untouched under NO_TRACE, for the translated methods** — `c14_restore` and
-    `c14_notrace_untouched` for every history run with the translated `start`/`shutdown` (`runX`). -/
-theorem c14_restore_translated (h1 h2 : Hook) (nt : Bool) (ps pend : List Nat) (ops : List Op) :
+/-- **`Deep.start` does exactly the specified things in the specified order** — in every state: nothing when
+    started; only a warning when shut down before; otherwise load plugins, create the resource, ask the providers,
+    store the resource, install the hooks, connect, start polling, and only then `started = True`.  Any statement of
+    the method dropped, added or moved (also one without effect on the modelled state) falsifies this. -/
+theorem c14_start_trace (d : Deep) : startTrace noStartFaults d = startSpecTrace d := startTrace_eq d
+
+/-- **`Deep.shutdown` attempts exactly the specified steps in the specified order** (`_partial`: `Readable`) — for
+    every fault assignment: marked shut down FIRST, then hooks restored, deliveries drained, poll timer stopped, every
+    plugin's `shutdown()` in load order — each attempted whatever failed before —, and `started = False` LAST. -/
+theorem c14_shutdown_trace_partial (f : Faults) (d : Deep) (hr : Readable f d) :
+    shutdownTrace f d = shutdownSpecTrace d := shutdownTrace_eq f d hr
+
+/-- **without `Readable` it is false of the code**: one loaded plugin (7) whose `shutdown` attribute cannot be read:
+    `Deep.shutdown` of a started agent raises before any step — the hooks stay the agent's, `started` stays true, no
+    plugin is shut down, polling goes on — where the specification (`c14_shutdown_completes`) restores the hooks.
+    Known finding `C14/plugin-shutdown-attribute-unreadable`, replayed on the real code every run. -/
+theorem c14_unreadable_shutdown_witness :
+    let f : Faults := { plugin := fun _ => false, task := fun _ => false, pluginBase := false,
+                        attrUnreadable := fun p => p == 7 }
+    let d := startX (init (.host 1) (.host 2) false [3, 7] [])
+    (shutdownX f d).2 = true ∧ (shutdownX f d).1.started = true ∧ (shutdownX f d).1.hooks = (.agent, .agent) ∧
+    (shutdownX f d).1.shutCalls = [] ∧ (shutdownX f d).1.pollAlive = true ∧ shutdownTrace f d = [.set .everShut true, .raised] ∧
+    (shutdown f d).1.hooks = (.host 1, .host 2) := by decide
+
+/-- model lemma (corollary): of `c14_restore` / `c14_notrace_untouched` through the tie lemmas (no content of its own): the same for
+    every history run with the translated `start`/`shutdown` (`runX`), plugins readable. -/
+theorem c14_restore_translated_partial (h1 h2 : Hook) (nt : Bool) (ps pend : List Nat) (ops : List Op)
+    (hr : OpsReadable ps ops) :
     let d := runX ops (init h1 h2 nt ps pend)
     let host := (runH ops (init h1 h2 nt ps pend, (h1, h2))).2
     (d.started = false → d.hooks = host) ∧ (d.started = true → nt = false → d.hooks = (.agent, .agent)) ∧
     (nt = true → d.hooks = host) := by
-  simp only [runX_eq]
+  have he : runX ops (init h1 h2 nt ps pend) = run ops (init h1 h2 nt ps pend) := runX_eq ops _ hr
+  simp only [he]
   refine ⟨(c14_restore h1 h2 nt ps pend ops).1, (c14_restore h1 h2 nt ps pend ops).2, ?_⟩
   intro hnt; subst hnt
   exact c14_notrace_untouched h1 h2 ps pend ops
 
-/-- **shutdown completes, for the translated method** — `c14_shutdown_completes` for `shutdownX`. -/
-theorem c14_shutdown_completes_translated (f : Faults) (d : Deep) (hs : d.started = true) :
+/-- model lemma (corollary): of `c14_shutdown_completes` through the tie lemma (adds only the resulting hook pair). -/
+theorem c14_shutdown_completes_translated_partial (f : Faults) (d : Deep) (hs : d.started = true) (hr : Readable f d) :
     (shutdownX f d).2 = false ∧ (shutdownX f d).1.started = false ∧ (shutdownX f d).1.pollAlive = false ∧
     (shutdownX f d).1.pending = [] ∧ (shutdownX f d).1.tasksOpen = false ∧
     (shutdownX f d).1.shutCalls = d.shutCalls ++ d.plugins ∧
     (shutdownX f d).1.hooks = (if d.w.tracing then (d.w.oldSys, d.w.oldThr) else d.hooks) := by
-  rw [c14_shutdown_translated, shutdown_started f d hs]
+  rw [c14_shutdown_translated_partial f d hr, shutdown_started f d hs]
   cases ht : d.w.tracing <;> simp [Deep.hooks, thShutdown_tracing, thShutdown_not_tracing, ht]
 
-/-- **a start that fails before the hooks are touched changes nothing** (`_partial`: hypothesis "the failing service
-    call is not `trigger_handler.start()`, `grpc.start()` or `poll.start()`") — when loading the plugins, creating the
-    resource, reading the providers or storing the resource raises, `Deep.start` raises with the state as it was, so
-    it can simply be retried. -/
+/-- **a start that fails before the hooks are touched changes no MODELLED state** (`_partial`: hypothesis "the failing
+    service call is not `trigger_handler.start()`, `grpc.start()` or `poll.start()`") — when loading the plugins,
+    creating the resource, reading the providers or storing the resource raises, `Deep.start` raises with the flags,
+    hooks, handler fields, timer and task state as they were.  NOT covered (outside the nine modelled fields):
+    `config.plugins` is already replaced when a later call fails, so a retry constructs every plugin again and the
+    first set is never shut down (audit probe: shutdown calls per constructed instance [0, 1]). -/
 theorem c14_failed_start_unchanged_partial (sf : StartFaults) (d : Deep)
     (h1 : sf .thStart = false) (h2 : sf .grpcStart = false) (h3 : sf .pollStart = false)
     (hr : (startF sf d).2 = true) : (startF sf d).1 = d := by
@@ -322,6 +364,14 @@ example :
 example :
     let d := run [.start, .newConfig [7, 8]] (init (.host 1) (.host 2) false [] [])
     d.hooks = (.agent, .agent) ∧ armed d = 2 := by decide
+
+/-- the hypotheses `Readable` / `OpsReadable` are satisfiable: every fault assignment that leaves the default
+    `attrUnreadable` -/
+example : Readable allFail (init .none .none false [1, 2] []) ∧ OpsReadable [1, 2] [.start, .shutdown allFail] := by
+  refine ⟨by simp [Readable, init, allFail], ?_⟩
+  intro f hf
+  simp only [List.mem_cons, List.not_mem_nil, or_false, reduceCtorEq, false_or] at hf
+  cases hf; simp [allFail]
 
 /-- the translated methods on a concrete history: same states as the specification machine, hooks restored, every
     plugin shut down although all fail -/
